@@ -210,7 +210,9 @@ def pyEscChar (tbl : List (Nat × Text)) (c : Nat) : Text :=
   | some e => e
   | none =>
     if c = 0 then [92, 120, 48, 48]
-    else if 0xD800 ≤ c ∧ c ≤ 0xDFFF then 92 :: 117 :: fmtHex 4 c
+    -- surrogates, and (since the repair of the re-indentation defect) the characters which `str.splitlines` treats as
+    -- line boundaries and no table escapes: U+001C..U+001E, U+0085, U+2028, U+2029 -- the same `\\uXXXX` form
+    else if 0xD800 ≤ c ∧ c ≤ 0xDFFF ∨ c = 28 ∨ c = 29 ∨ c = 30 ∨ c = 133 ∨ c = 8232 ∨ c = 8233 then 92 :: 117 :: fmtHex 4 c
     else [c]
 
 /-- (uses single quotes?) as decided by `string_literal` -/
@@ -241,7 +243,7 @@ def needsCharPy (c : Nat) : Bool :=
   else if c = 13 then true else if c = 9 then true else if c = 11 then true else if c = 34 then true
   else if c = 92 then true
   else if c = 0 then true
-  else if 0xD800 ≤ c ∧ c ≤ 0xDFFF then true
+  else if 0xD800 ≤ c ∧ c ≤ 0xDFFF ∨ c = 28 ∨ c = 29 ∨ c = 30 ∨ c = 133 ∨ c = 8232 ∨ c = 8233 then true
   else false
 
 def needs_py (alsoCurly : Bool) (s : Text) : Bool :=
